@@ -1,5 +1,6 @@
 import MidnightZK.Model.C07.Poseidon
 import MidnightZK.Gen.C07Poseidon
+import MidnightZK.Proofs.C07.Eval
 /-!
 # C07 — hash gadgets equal their reference functions on every message
 Property theorems (helper lemmas live in `MidnightZK/Proofs/C07`).
@@ -23,6 +24,82 @@ modulo the field modulus (so the value used is the value written). -/
 theorem constants_canonical :
     (Gen.roundConstants.all (fun r => r.all (fun c => decide (c < Gen.p)))) = true ∧
     (Gen.mds.all (fun r => r.all (fun c => decide (c < Gen.p)))) = true := by
+  decide +kernel
+
+/-! ## Poseidon: round skips and the off-circuit permutation -/
+
+section
+variable {F : Type} [CommRing F]
+
+/-- **skip_rounds_eq_raw.** For every width `≥ 1`, every MDS matrix, every table of round constants,
+every skip count `s ≤ NB_SKIPS_MAX`, every batch position `round` and every state: evaluating the
+linear identities produced by `RoundId::generate(s)` (`RoundId::eval`, the code of
+`partial_round_cpu` and of the circuit's witness generation `partial_round_cpu_for_circuits`) on the
+constants pre-computed by `eval_constants(round)` gives exactly the state after `1 + s` calls of
+`partial_round_cpu_raw` starting at `round`. Array sizes are those of the Rust types
+(`WIDTH + NB_SKIPS_MAX` variables, `WIDTH * (1 + NB_SKIPS_MAX)` constants). -/
+theorem skip_rounds_eq_raw (P : PParams F) (smax s round : Nat) (st : List F)
+    (hW : 1 ≤ P.width) (hs : s ≤ smax) :
+    let d : Dims := ⟨P.width + smax, P.width * (1 + smax)⟩
+    ((RoundId.generate P smax d s).eval P.width
+        ((RoundId.generate P smax d s).evalConstants P round) st).1
+      = iter (partialRoundRaw P) (1 + s) round st := by
+  intro d
+  exact eval_eq_raw P smax d s hW hs (by simp [d]; omega)
+    (by simp [d]; exact Nat.mul_le_mul_left _ (by omega)) round st
+
+/-- **cpu_perm_eq_raw.** `permutation_cpu` with the pre-computation `PreComputedRound*::init` for any
+skip count (batches of `1 + s` partial rounds, then the `NB_PARTIAL_ROUNDS % (1 + s)` trailing raw
+rounds) equals the skip-free shifted permutation (`tests::permutation_cpu_raw`), for every state. -/
+theorem cpu_perm_eq_raw (P : PParams F) (smax s : Nat) (st : List F)
+    (hW : 1 ≤ P.width) (hs : s ≤ smax) :
+    permutationCpu P (PreComputed.init P smax s) st = permutationRaw P st :=
+  permutationCpu_eq_raw P smax s hW hs st
+
+/-- **cpu_perm_eq_textbook.** For every state, `permutation_cpu` (shifted rounds: the constants of
+round `r + 1` are added at the end of round `r`, the first constants before round 0, zeros after the
+last round; partial rounds batched through the skip identities) equals the published permutation
+(add-round-constants, S-box layer, MDS; `R_F/2` full, `R_P` partial, `R_F/2` full rounds, the partial
+S-box on cell `WIDTH - 1`), for every MDS matrix and round-constant table, provided the number of
+full rounds is even and non-zero (the shipped values are checked in `params_shape`). -/
+theorem cpu_perm_eq_textbook (P : PParams F) (smax s : Nat) (st : List F)
+    (hW : 1 ≤ P.width) (hs : s ≤ smax) (hE : P.nbFull % 2 = 0) (hF : 0 < P.nbFull) :
+    permutationCpu P (PreComputed.init P smax s) st = textbook P st := by
+  rw [permutationCpu_eq_raw P smax s hW hs st, permutationRaw_eq_textbook P st hE hF]
+
+/-- The shipped shape (`WIDTH`, round numbers, both skip counts generated from the sources) with
+arbitrary tables over an arbitrary commutative ring: the off-circuit permutation (`NB_SKIPS_CPU`) and
+the witness generation of the chip (`NB_SKIPS_CIRCUIT`) both compute the textbook permutation. -/
+theorem shipped_perms_eq_textbook (mds rc : List (List F)) (st : List F) :
+    let P : PParams F := { width := Gen.width, rate := Gen.rate, nbFull := Gen.nbFull,
+                           nbPartial := Gen.nbPartial, mds := mds, rc := rc }
+    let smax := max Gen.nbSkipsCpu Gen.nbSkipsCircuit
+    permutationCpu P (PreComputed.init P smax Gen.nbSkipsCpu) st = textbook P st ∧
+    permutationCpu P (PreComputed.init P smax Gen.nbSkipsCircuit) st = textbook P st := by
+  intro P smax
+  have h1 : 1 ≤ Gen.width := by decide
+  have h2 : Gen.nbFull % 2 = 0 := by decide
+  have h3 : 0 < Gen.nbFull := by decide
+  constructor
+  · exact cpu_perm_eq_textbook P smax Gen.nbSkipsCpu st h1 (by decide) h2 h3
+  · exact cpu_perm_eq_textbook P smax Gen.nbSkipsCircuit st h1 (by decide) h2 h3
+
+end
+
+/-- The shipped parameters over the canonical integers modulo `p` (the driver's instance). -/
+def shippedFp : PParams (Fp Gen.p) :=
+  { width := Gen.width, rate := Gen.rate, nbFull := Gen.nbFull, nbPartial := Gen.nbPartial,
+    mds := Gen.mds.map (fun r => r.map (Fp.ofNat Gen.p)),
+    rc := Gen.roundConstants.map (fun r => r.map (Fp.ofNat Gen.p)) }
+
+/-- Non-vacuity / sanity on the real field and tables: the three model permutations agree on a
+concrete state (and are not the identity). -/
+example :
+    permutationCpu shippedFp (PreComputed.init shippedFp 5 2) [⟨0⟩, ⟨1⟩, ⟨2⟩]
+      = textbook shippedFp [⟨0⟩, ⟨1⟩, ⟨2⟩] ∧
+    permutationCpu shippedFp (PreComputed.init shippedFp 5 5) [⟨0⟩, ⟨1⟩, ⟨2⟩]
+      = textbook shippedFp [⟨0⟩, ⟨1⟩, ⟨2⟩] ∧
+    textbook shippedFp [⟨0⟩, ⟨1⟩, ⟨2⟩] ≠ [⟨0⟩, ⟨1⟩, ⟨2⟩] := by
   decide +kernel
 
 end MidnightZK.C07
